@@ -330,7 +330,7 @@ class Main(Suite):
     name = "main"
     go_cmd = "c52"
     coq_imports = "From GoGit Require Import Model.Reflog Spec.ReflogGit."
-    quick_n = 420
+    quick_n = 300
     thorough_n = 6000
 
     def gen(self, rng, n, tier):
@@ -461,6 +461,9 @@ class Main(Suite):
             if b"\0" in f or len(c.get("old", ZERO)) != 40:
                 continue
             files[c["id"]] = f
+        if ctx.tier == "quick":
+            keep = sorted(files)[::max(1, len(files) // 150)]   # a spread sample; the thorough tier takes every file
+            files = {k: files[k] for k in keep}
         listing = git_listing(d, files)
         ids = sorted(files)
         outs = ctx.coq_eval(self.coq_imports, ['c52_git_read "%s"' % files[i].hex() for i in ids])
